@@ -26,8 +26,8 @@ type assertStop struct{ msg string }
 
 type rtError struct{ msg string }
 
-func (e rtError) Error() string { return "runtime error: " + e.msg }
-func (e rtError) RuntimeError() {}
+func (e rtError) Error() string       { return "runtime error: " + e.msg }
+func (e rtError) RuntimeError()       {}
 func runtimeError(msg string) rtError { return rtError{msg} }
 
 // engineAbort reports whether a recovered panic value belongs to the engine
@@ -64,17 +64,17 @@ type Violation struct {
 func (v *Violation) Key() string { return v.Kind + "|" + v.KnownID + "|" + v.Msg }
 
 type Options struct {
-	Workers       int
-	MaxPaths      int
-	MaxInstr      int64
-	MaxDepth      int
-	FeasTimeoutMs int
-	AssertTimeout int
-	SolverKind    string
-	Trace         bool
-	AbstractArith bool
+	Workers         int
+	MaxPaths        int
+	MaxInstr        int64
+	MaxDepth        int
+	FeasTimeoutMs   int
+	AssertTimeout   int
+	SolverKind      string
+	Trace           bool
+	AbstractArith   bool
 	MaxModelsPerKey int
-	Tier          int
+	Tier            int
 }
 
 func DefaultOptions() Options {
@@ -83,24 +83,24 @@ func DefaultOptions() Options {
 }
 
 type Stats struct {
-	Paths        int            `json:"paths"`
-	PathsOK      int            `json:"paths_completed"`
-	PathsAssume  int            `json:"paths_dropped_by_assume"`
-	PathsPanic   int            `json:"paths_panic"`
-	Decisions    int64          `json:"decisions"`
-	Queries      int            `json:"solver_queries"`
-	Sat          int            `json:"sat"`
-	Unsat        int            `json:"unsat"`
-	Unknown      int            `json:"unknown"`
-	SolverSec    float64        `json:"solver_seconds"`
-	AssertChecks int            `json:"assertion_queries"`
-	AssertProved int            `json:"assertions_unsat"`
-	AssertConcrete int          `json:"assertions_concrete"`
-	Reach        map[string]int `json:"reach"`
-	Instr        int64          `json:"instructions"`
-	WallSec      float64        `json:"wall_seconds"`
-	NontrivPaths int            `json:"nontrivial_paths"`
-	Funcs        map[string]int `json:"-"`
+	Paths          int            `json:"paths"`
+	PathsOK        int            `json:"paths_completed"`
+	PathsAssume    int            `json:"paths_dropped_by_assume"`
+	PathsPanic     int            `json:"paths_panic"`
+	Decisions      int64          `json:"decisions"`
+	Queries        int            `json:"solver_queries"`
+	Sat            int            `json:"sat"`
+	Unsat          int            `json:"unsat"`
+	Unknown        int            `json:"unknown"`
+	SolverSec      float64        `json:"solver_seconds"`
+	AssertChecks   int            `json:"assertion_queries"`
+	AssertProved   int            `json:"assertions_unsat"`
+	AssertConcrete int            `json:"assertions_concrete"`
+	Reach          map[string]int `json:"reach"`
+	Instr          int64          `json:"instructions"`
+	WallSec        float64        `json:"wall_seconds"`
+	NontrivPaths   int            `json:"nontrivial_paths"`
+	Funcs          map[string]int `json:"-"`
 }
 
 type Result struct {
@@ -122,45 +122,48 @@ type Explorer struct {
 	module string
 	sizes  types.Sizes
 
-	mu       sync.Mutex
-	cond     *sync.Cond
-	queue    [][]int
-	active   int
-	stop     bool
-	res      *Result
-	viol     map[string][]*Violation
-	incon    map[string]bool
-	funcs    map[string]int
-	exts     map[string]int
-	known    map[string]bool // open known finding ids (for vsymKnown)
+	mu     sync.Mutex
+	cond   *sync.Cond
+	queue  [][]int
+	active int
+	stop   bool
+	res    *Result
+	viol   map[string][]*Violation
+	incon  map[string]bool
+	funcs  map[string]int
+	exts   map[string]int
+	known  map[string]bool // open known finding ids (for vsymKnown)
+	forks  map[string]int
 }
 
 // pathCtx is the per-path symbolic state.
 type pathCtx struct {
-	ex        *Explorer
-	tt        *TermTable
-	solver    *Solver
-	prefix    []int
-	decisions []int
-	pc        []*Term
-	nameCtr   map[string]int
-	inputs    []*InputRec
-	instr     int64
-	abstractArith bool
-	mapOrderAll   bool
-	schedAll      bool
-	reach     []string
-	touchedSym bool
-	assertsSeen int
-	newPrefixes [][]int
-	funcs     map[string]int
-	exts      map[string]int
-	goq       []func() // pending goroutine bodies
-	fresh     int
-	now       value
-	hashApps  []hashApp
+	ex             *Explorer
+	tt             *TermTable
+	solver         *Solver
+	prefix         []int
+	decisions      []int
+	pc             []*Term
+	nameCtr        map[string]int
+	inputs         []*InputRec
+	instr          int64
+	abstractArith  bool
+	mapOrderAll    bool
+	schedAll       bool
+	reach          []string
+	touchedSym     bool
+	assertsSeen    int
+	newPrefixes    [][]int
+	funcs          map[string]int
+	exts           map[string]int
+	goq            []func() // pending goroutine bodies
+	fresh          int
+	now            value
+	hashApps       []hashApp
 	initIncomplete []string
-	tier      int
+	tier           int
+	interp         *interpreter
+	concolic       map[string]uint64 // test mode: decisions follow this assignment
 }
 
 func NewExplorer(prog *ssa.Program, fn *ssa.Function, module string, sizes types.Sizes, opts Options) *Explorer {
@@ -195,6 +198,23 @@ func (e *Explorer) Run() *Result {
 	}
 	wg.Wait()
 	e.res.Stats.WallSec = time.Since(t0).Seconds()
+	if e.opts.Trace && len(e.forks) > 0 {
+		type kv struct {
+			k string
+			v int
+		}
+		var kvs []kv
+		for k, v := range e.forks {
+			kvs = append(kvs, kv{k, v})
+		}
+		sort.Slice(kvs, func(i, j int) bool { return kvs[i].v > kvs[j].v })
+		for i, e := range kvs {
+			if i >= 12 {
+				break
+			}
+			fmt.Fprintf(os.Stderr, "  forks %7d  %s\n", e.v, e.k)
+		}
+	}
 	for _, vs := range e.viol {
 		e.res.Violations = append(e.res.Violations, vs...)
 	}
@@ -303,6 +323,7 @@ func (e *Explorer) runPath(solver *Solver, prefix []int) (x *pathCtx) {
 		abstractArith: e.opts.AbstractArith, funcs: map[string]int{}, exts: map[string]int{}}
 	solver.BeginPath(x.tt)
 	i := newInterp(e.prog, e.sizes, e.module, x)
+	x.interp = i
 	outcome := "ok"
 	func() {
 		defer func() {
@@ -421,6 +442,16 @@ func (x *pathCtx) assertPC(t *Term) {
 // decide picks one of the alternatives (mutually exclusive, exhaustive under
 // the path condition).  nil alternatives are unconstrained engine choices.
 func (x *pathCtx) decide(alts []*Term, tag string) int {
+	if x.concolic != nil {
+		memo := map[*Term]uint64{}
+		for i, a := range alts {
+			if a == nil || evalTerm(a, x.concolic, memo) == 1 {
+				x.decisions = append(x.decisions, i)
+				return i
+			}
+		}
+		panic("concolic: no alternative holds at " + tag)
+	}
 	d := len(x.decisions)
 	if d >= x.ex.opts.MaxDepth {
 		panic(budgetErr{fmt.Sprintf("decision depth %d (%s)", d, tag)})
@@ -463,6 +494,18 @@ func (x *pathCtx) decide(alts []*Term, tag string) int {
 	}
 	if len(feas) == 0 {
 		panic(abortPath{"no feasible alternative at " + tag})
+	}
+	if len(feas) > 1 && x.ex.opts.Trace {
+		where := tag
+		if x.interp != nil && x.interp.top != nil && x.interp.top.cur != nil {
+			where += " @ " + x.interp.top.fn.String() + " " + x.interp.prog.Fset.Position(x.interp.top.cur.Pos()).String()
+		}
+		x.ex.mu.Lock()
+		if x.ex.forks == nil {
+			x.ex.forks = map[string]int{}
+		}
+		x.ex.forks[where] += len(feas) - 1
+		x.ex.mu.Unlock()
 	}
 	base := append([]int{}, x.decisions...)
 	for _, j := range feas[1:] {
